@@ -94,6 +94,11 @@ PoolHistQ == { Base("r1"), [Base("r1") EXCEPT !.path = <<"dyn", "/X/@m">>], [Bas
                \* a rule filed under several buckets of one layer (two methods), and a second plain rule sharing r1's static path
                [Base("r3") EXCEPT !.path = <<"dyn", "/x/@m">>, !.methods = <<"GET", "POST">>], Base("r4") }
 
+\* several rules that each sit in several network buckets accepting the same address (a trace meets each of them more than once, interleaved)
+TwoNets == <<<<"in", "10.0.0.0/8">>, <<"in", "10.1.0.0/16">>>>
+PoolIps == { [Base("r1") EXCEPT !.ips = TwoNets], [Base("r4") EXCEPT !.ips = <<TwoNets[2], TwoNets[1]>>], [Base("r3") EXCEPT !.ips = TwoNets], Base("r2"),
+             [Base("r2") EXCEPT !.ips = <<<<"in", "10.1.0.0/16">>>>] }
+
 \* mkt (ignore marketing parameters) follows ipc: the probes carry no marketing parameter, the flag only selects the
 \* code path of the request normalisation (with both off the URL is not rewritten at all)
 Cfg(a, b, c, d) == [ihc |-> a, ihdr |-> b, ipc |-> c, always |-> d, mkt |-> c]
